@@ -13,7 +13,8 @@ import FordModel.External
 namespace Ford.Ext
 open Ford Ford.Path
 
-def kNonExistent : Seg := ['n', 'o', 'n', '-', 'e', 'x', 'i', 's', 't', 'e', 'n', 't', ' ', 'd', 'i', 'r']
+/-- the placeholder directory (`non-existent dir`), probed from `MetaMarkdown.convert` -/
+def kNonExistent : Seg := Gen.siblingDir
 def kHttp : Str := ['h', 't', 't', 'p']
 
 /-- `self.current_path` of `MetaMarkdown.convert(source, context)` without a `path`:
